@@ -50,12 +50,16 @@ HARNESSES = [
     dict(name='c16', src='c16.cpp', sel=[], quick=['--pb', '2', '--wb', '1', '--max-exec', '8000'],
          thorough=['--thorough', '--pb', '2', '--wb', '1', '--max-exec', '30000'], random=['--thorough', '--random-runs', '3000'],
          asan=['--pb', '1', '--wb', '1', '--max-exec', '1500']),
+    # C03's own: producing steps on shared / unique states with instance-counted probe captures (ordered teardown of Core::Done)
+    dict(name='c03_steps', src='c03_steps.cpp', sel=[], quick=['--pb', '2', '--wb', '1'],
+         thorough=['--pb', '4', '--wb', '1', '--max-exec', '200000'], random=['--random-runs', '3000'],
+         asan=['--pb', '2', '--wb', '1']),
 ]
 CANARY = dict(name='c03_own_selftest', src='c03_own_selftest.cpp', sel=[], quick=['--pb', '1', '--wb', '0'])
 CANARY_EXPECT = {'leak': 'leak:', 'double_free': 'double free', 'write_after_free': 'write after free'}
 
 ASAN_ENV = 'abort_on_error=1:detect_leaks=0:handle_abort=0'
-OWN_KIND = re.compile(r'^(leak:|double free|write after free|crash)')
+OWN_KIND = re.compile(r'^(leak:|double free|write after free|crash|a functor capture|functor captures|the result of a step)')
 
 
 def _env():
